@@ -705,9 +705,25 @@ package index
 //@   assert at before call index.remapIndex#0: @C09-remap-only-after-config-check gexisting && header.BucketsBits == indexSizeBits && header.MaxFileSize == maxFileSize && header.PrimaryFileSize == 0
 //@   assert at before call index.openFileAppend#0: @C09-index-file-opened-only-after-config-check gexisting ==> header.BucketsBits == indexSizeBits && header.MaxFileSize == maxFileSize
 
-//@ func upgradeIndex(ctx context.Context, name string, headerPath string, maxFileSize uint32) (err error)
-//@   trusted T5 contract pending: converts a version-2 single-file index (chunkOldIndex is under contract); no-op for a current index
-//@   modifies ctx.$done
+// upgradeIndex (C10): the resume discipline of the legacy index conversion - only a version-2
+// single-file index is converted; the header, which marks the conversion as done, is written
+// only after chunking succeeded, and the old file is removed only after the header was written.
+//@ func upgradeIndex(ctx context.Context, name string, headerPath string, maxFileSize uint32) (err error)  property C10
+//@   requires maxFileSize > 0
+//@   modifies ctx.$done, fp(IO), heap("bufio.")
+//@   ghost var gheader bool = false
+//@   ghost var gchunked bool = false
+//@   ghost var gversion int = 0
+//@   ghost at after call index.readOldHeader#0: gversion = ite($r3 == nil, $r0, 0)
+//@   ghost at after call index.chunkOldIndex#0: gchunked = ($r1 == nil)
+//@   ghost at after call index.writeHeader#0: gheader = ($r0 == nil)
+//@   assert at before call index.chunkOldIndex#0: @only-version-2 gversion == 2 && $a2 == name && $a3 == maxFileSize
+//@   assert at before call index.writeHeader#0: @header-after-chunking gchunked && $a0 == headerPath && $a1.MaxFileSize == maxFileSize
+//@   assert at before call os.Remove#0: @old-file-removed-last gheader && $a0 == name
+
+//@ func readOldHeader(file *os.File) (version byte, bucketBits byte, headerSize types.Position, err error)
+//@   trusted reads the version-2 header (a header shorter than two bytes makes it panic: input validation of a legacy file, outside C10's well-formed legacy stores)
+//@   pure
 
 // scanIndex: scanIndexFile for consecutive file numbers until one does not exist; an error of
 // any other kind aborts the open.
